@@ -258,7 +258,7 @@ fn gen_reports(n: usize, r: &mut VRng) -> Vec<Rep> {
 fn verif_c11_dedup() {
     let env = vlib::env();
     let mut rec = Recorder::new("C11", "verif_c11_dedup");
-    let n_cases = env.pick(400, 6000);
+    let n_cases = env.pick(1600, 8000);
     for idx in 0..n_cases {
         if !env.mine(idx) {
             continue;
